@@ -599,8 +599,7 @@ func (a *Act) convert(ctx *blockCtx, x *ssa.Convert) {
 		g.extraDecl("f_bytes", "(declare-fun f_bytes (Str) (Array Int Int))\n(assert (forall ((s Str) (i Int)) (! (= (select (f_bytes s) i) (sat s i)) :pattern ((select (f_bytes s) i)))))")
 		a.set(x, Val{T: "(mk_slc (f_bytes " + v.T + ") (slen " + v.T + "))", S: to, G: x.Type()})
 	case from == "(Slc Int)" && to == "Str":
-		g.extraDecl("f_strof", "(declare-fun f_strof ((Slc Int)) Str)\n(assert (forall ((b (Slc Int))) (! (= (slen (f_strof b)) (slc_len b)) :pattern ((f_strof b)))))\n(assert (forall ((b (Slc Int)) (i Int)) (! (=> (and (<= 0 i) (< i (slc_len b))) (= (sat (f_strof b) i) (select (slc_arr b) i))) :pattern ((sat (f_strof b) i)))))")
-		a.set(x, Val{T: "(f_strof " + v.T + ")", S: "Str", G: x.Type()})
+		a.set(x, Val{T: "(" + g.strofFn() + " " + v.T + ")", S: "Str", G: x.Type()})
 	default:
 		g.problem("%s: unsupported conversion %s -> %s at %s", a.key, x.X.Type(), x.Type(), g.pos(x.Pos()))
 		a.set(x, Val{T: g.fresh("conv", to), S: to, G: x.Type()})
@@ -617,6 +616,14 @@ func (a *Act) box(v Val, from types.Type, to types.Type) Val {
 	v = a.coerce(v, s)
 	t := "(" + g.w.boxFn(s) + "_" + fmt.Sprint(g.w.typeID(from)) + " " + v.T + ")"
 	// one box function per (sort, dynamic type)
+	if g.boxed == nil {
+		g.boxed = map[string]Val{}
+	}
+	ov := v
+	if ov.G == nil {
+		ov.G = from
+	}
+	g.boxed[t] = ov
 	fn := g.w.boxFn(s) + "_" + fmt.Sprint(g.w.typeID(from))
 	g.extraDecl(fn, "(declare-fun "+fn+" ("+s+") Iface)")
 	g.fact(and("(= (dyntype "+t+") "+smtInt(int64(g.w.typeID(from)))+")", "(= ("+g.w.payFn(s)+" "+t+") "+v.T+")", not("(= "+t+" iface_nil)")))
@@ -841,4 +848,10 @@ func (g *Gen) mapvalTerm(st State, m Val, mt *types.Map) string {
 	empty := "(mk_map ((as const (Array " + ks + " Bool)) false) ((as const (Array " + ks + " " + vs + ")) " + g.w.zeroSort(vs) + "))"
 	g.extraDecl(n, "(declare-fun "+n+" ((Array Ref (MapV "+ks+" "+vs+")) Ref) (MapV "+ks+" "+vs+"))\n(assert (forall ((h (Array Ref (MapV "+ks+" "+vs+"))) (m Ref)) (! (= ("+n+" h m) (ite (= m ref_nil) "+empty+" (select h m))) :pattern (("+n+" h m)))))")
 	return "(" + n + " " + g.stateGet(st, hv) + " " + m.T + ")"
+}
+
+func (g *Gen) strofFn() string {
+	g.w.elemSorts["Int"] = true
+	g.extraDecl("f_strof", "(declare-fun f_strof ((Slc Int)) Str)\n(assert (forall ((b (Slc Int))) (! (=> (>= (slc_len b) 0) (= (slen (f_strof b)) (slc_len b))) :pattern ((f_strof b)))))\n(assert (forall ((b (Slc Int)) (i Int)) (! (=> (and (<= 0 i) (< i (slc_len b))) (= (sat (f_strof b) i) (select (slc_arr b) i))) :pattern ((sat (f_strof b) i)))))")
+	return "f_strof"
 }
